@@ -1060,3 +1060,114 @@ Theorem encode_length N l : u32s_wf N l -> Some (length (u32s_encode l)) = u32s_
 Proof.
   intros [L F]. rewrite encode_is_to_bfes. unfold u32s_to_bfes, u32s_static_length. rewrite map_length, L. reflexivity.
 Qed.
+
+(* ------------------------------------------------------------------ the property's own shape: exact or panic *)
+Lemma exact_or_panic N (o : option (list Z)) v :
+  match o with Some r => u32s_wf N r /\ u32s_value r = v | None => ~ u32s_fits N v end ->
+  (forall r, o = Some r -> u32s_wf N r /\ u32s_value r = v) /\ (o = None <-> ~ u32s_fits N v).
+Proof.
+  intros H. destruct o as [r|].
+  - split; [intros r' E; injection E as <-; exact H|]. split; [discriminate|].
+    intros Hn. exfalso. apply Hn. destruct H as [Hr <-]. apply wf_fits. exact Hr.
+  - split; [discriminate|]. split; auto.
+Qed.
+
+Theorem add_exact N a b : u32s_wf N a -> u32s_wf N b ->
+  (forall r, u32s_add a b = Some r -> u32s_wf N r /\ u32s_value r = u32s_value a + u32s_value b) /\
+  (u32s_add a b = None <-> ~ u32s_fits N (u32s_value a + u32s_value b)).
+Proof.
+  intros Ha Hb. apply exact_or_panic. pose proof (add_spec N a b Ha Hb) as H.
+  destruct (u32s_add a b); [exact H|]. rewrite fits_T. lia.
+Qed.
+
+Theorem sub_exact N a b : u32s_wf N a -> u32s_wf N b ->
+  (forall r, u32s_sub a b = Some r -> u32s_wf N r /\ u32s_value r = u32s_value a - u32s_value b) /\
+  (u32s_sub a b = None <-> ~ u32s_fits N (u32s_value a - u32s_value b)).
+Proof.
+  intros Ha Hb. apply exact_or_panic. pose proof (sub_spec N a b Ha Hb) as H.
+  destruct (u32s_sub a b); [exact H|]. rewrite fits_T. lia.
+Qed.
+
+Theorem mul_exact N a b : u32s_wf N a -> u32s_wf N b ->
+  (forall r, u32s_mul a b = Some r -> u32s_wf N r /\ u32s_value r = u32s_value a * u32s_value b) /\
+  (u32s_mul a b = None <-> ~ u32s_fits N (u32s_value a * u32s_value b)).
+Proof.
+  intros Ha Hb. apply exact_or_panic. pose proof (mul_spec N a b Ha Hb) as H.
+  destruct (u32s_mul a b); [exact H|]. rewrite fits_T. lia.
+Qed.
+
+Theorem mul_two_exact N a : u32s_wf N a ->
+  (forall r, u32s_mul_two a = Some r -> u32s_wf N r /\ u32s_value r = 2 * u32s_value a) /\
+  (u32s_mul_two a = None <-> ~ u32s_fits N (2 * u32s_value a)).
+Proof.
+  intros Ha. apply exact_or_panic. pose proof (mul_two_spec N a Ha) as H.
+  destruct (u32s_mul_two a); [exact H|]. rewrite fits_T. lia.
+Qed.
+
+Theorem sum_exact N ls : Forall (u32s_wf N) ls ->
+  (forall r, u32s_sum N ls = Some r -> u32s_wf N r /\ u32s_value r = sum_values ls) /\
+  (u32s_sum N ls = None <-> ~ u32s_fits N (sum_values ls)).
+Proof.
+  intros H. apply exact_or_panic. pose proof (sum_spec N ls H) as S.
+  destruct (u32s_sum N ls); [exact S|]. rewrite fits_T. lia.
+Qed.
+
+(* division: panics exactly on a zero divisor; in particular no internal mul_two / set_bit / sub ever panics *)
+Theorem rem_div_exact N a d : u32s_wf N a -> u32s_wf N d ->
+  (u32s_rem_div a d = None <-> u32s_value d = 0) /\
+  (forall q r, u32s_rem_div a d = Some (q, r) ->
+     u32s_wf N q /\ u32s_wf N r /\
+     u32s_value a = u32s_value q * u32s_value d + u32s_value r /\ 0 <= u32s_value r < u32s_value d /\
+     u32s_value q = u32s_value a / u32s_value d /\ u32s_value r = u32s_value a mod u32s_value d).
+Proof.
+  intros Ha Hd. pose proof (rem_div_spec N a d Ha Hd) as H.
+  destruct (u32s_rem_div a d) as [[q r]|].
+  - destruct H as (HD & Hq & Hr & V & R). split; [split; [discriminate|intros; contradiction]|].
+    intros q' r' E. injection E as <- <-. split; [exact Hq|]. split; [exact Hr|]. split; [exact V|]. split; [exact R|]. split.
+    + apply Z.div_unique_pos with (u32s_value r); lia.
+    + apply Z.mod_unique_pos with (u32s_value q); lia.
+  - split; [split; auto|discriminate].
+Qed.
+
+Theorem div_exact N a d : u32s_wf N a -> u32s_wf N d ->
+  (u32s_div a d = None <-> u32s_value d = 0) /\
+  (forall q, u32s_div a d = Some q -> u32s_wf N q /\ u32s_value q = u32s_value a / u32s_value d).
+Proof.
+  intros Ha Hd. destruct (rem_div_exact N a d Ha Hd) as [Hn Hs]. unfold u32s_div.
+  destruct (u32s_rem_div a d) as [[q r]|]; cbn [option_map fst].
+  - split; [split; [discriminate|intros E; apply Hn in E; discriminate]|].
+    intros q' E. injection E as <-. destruct (Hs q r eq_refl) as (Hq & _ & _ & _ & Vq & _). auto.
+  - split; [split; [intros _; apply Hn; reflexivity|reflexivity]|discriminate].
+Qed.
+
+Theorem rem_exact N a d : u32s_wf N a -> u32s_wf N d ->
+  (u32s_rem a d = None <-> u32s_value d = 0) /\
+  (forall r, u32s_rem a d = Some r -> u32s_wf N r /\ u32s_value r = u32s_value a mod u32s_value d).
+Proof.
+  intros Ha Hd. destruct (rem_div_exact N a d Ha Hd) as [Hn Hs]. unfold u32s_rem.
+  destruct (u32s_rem_div a d) as [[q r]|]; cbn [option_map snd].
+  - split; [split; [discriminate|intros E; apply Hn in E; discriminate]|].
+    intros r' E. injection E as <-. destruct (Hs q r eq_refl) as (_ & Hr & _ & _ & _ & Vr). auto.
+  - split; [split; [intros _; apply Hn; reflexivity|reflexivity]|discriminate].
+Qed.
+
+Theorem from_u32_exact N n : N <> 0%nat -> 0 <= n < 2 ^ 32 ->
+  exists r, u32s_from_u32 N n = Some r /\ u32s_wf N r /\ u32s_value r = n.
+Proof.
+  intros HN Hn. pose proof (from_u32_spec N n Hn) as H. destruct (u32s_from_u32 N n) as [r|]; [|contradiction].
+  exists r. destruct H as (_ & Hr & V). auto.
+Qed.
+
+Theorem one_exact N :
+  (forall r, u32s_one N = Some r -> u32s_wf N r /\ u32s_value r = 1) /\ (u32s_one N = None <-> ~ u32s_fits N 1).
+Proof.
+  apply exact_or_panic. pose proof (one_spec N) as H. destruct (u32s_one N); [tauto|]. subst N.
+  unfold u32s_fits. cbn. lia.
+Qed.
+
+Theorem from_big_fits N v : u32s_fits N v ->
+  exists l, u32s_from_big N v = Some l /\ u32s_wf N l /\ u32s_value l = v.
+Proof.
+  intros Hv. change (0 <= v < T N) in Hv. destruct (from_big_spec N v ltac:(lia)) as (l & E & Hl & V).
+  exists l. rewrite Z.mod_small in V by lia. auto.
+Qed.
